@@ -1,6 +1,41 @@
 /-
   Rngs.Extra.JitterEntropy — what a user of `JitterRng` relies on and no test can sample.
-  (header completed below)
+
+  Model: `Rngs.Model.Jitter` (`TM = StateT (List U64) Option`: the timer is the list of values it will
+  return; `none` = the script ran dry).  A collection reads `t₀ | c₁ T₁ c₁' | c₂ T₂ c₂' | …`: the priming
+  reading, then per measurement a loop-count reading, the time reading, a loop-count reading.
+
+  J1  no measured delta is lost.
+      (a)  one `measure_jitter`: same pool, same `EcState`, same verdict — the new pools are equal iff the
+           two 32-bit deltas are (`measureJitter_pool_eq_iff`).
+      (b1) the value of `gen_entropy` is `output pool (consumed measurements)`; with the verdicts and the
+           other deltas fixed it is injective in every single delta — stuck ones included
+           (`output_eq_iff`, `genEntropy_injective_in_each_delta`); bijective in the pool
+           (`output_bijective_in_pool`).
+      (b2) time readings: if only the LAST consumed time reading differs, the values are equal iff the two
+           readings agree mod 2^32 — no hypothesis on verdicts (`genEntropy_last_time_reading`).
+      (b3) time readings, fully general: ONE time reading anywhere differs (two deltas change), same
+           verdicts — the values are equal iff the two readings agree mod 2^32
+           (`genEntropy_one_time_reading`).  The two changed deltas never cancel
+           (`two_deltas_never_cancel`): the only xor-difference pair that would cancel in the LFSR
+           (`two_deltas_roots`, it exists: `two_deltas_root_exists`) has different lowest bits, which the
+           arithmetic of time stamps excludes.  Loop-count readings never matter
+           (`genEntropy_value_depends_on_times`).
+  J2  (a) the outcome depends on the consumed prefix of the readings only (`genEntropy_depends_on_consumed_prefix`,
+          `genEntropy_extend`); (b) that prefix has `1 + 3·(1 + rounds + s)` readings, `s` = stuck
+          measurements skipped (`genEntropy_consumed`); more rounds consume at least 3 more readings each
+          (`genEntropy_rounds_monotone`).
+  J3  the stuck test: `stuck_iff`, on delta histories `stuck_history`, `stuck_first`, `stuck_second`,
+      `delta2_zero_iff`, `delta3_zero_iff…`, through `measure_jitter`: `measureJitter_verdict`.
+      Broken timers: equal deltas — every measurement from the second on is stuck; deltas in arithmetic
+      progression — from the third on; `gen_entropy` then never returns (`none` on every finite script):
+      `genEntropy_constant_step_none` (rounds ≥ 1), `genEntropy_arithmetic_step_none` (rounds ≥ 2, sharp),
+      on time stamps `genEntropy_linear_timer_none`, `genEntropy_quadratic_timer_none`, on scripts
+      `…_script_none`, for the rounds loop `collect_constant_step_none`, `collect_arithmetic_step_none`.
+
+  Helper lemmas: `Lib/JitterEntropyLemmas`, `Lib/JitterPair`, `Cert/JitterPairCert` (generated),
+  `Cert/JitterPairCheck`, `Lib/JitterPairLemmas`.  Every conditional theorem has an `example` with concrete
+  readings satisfying its hypotheses, evaluated by the kernel.
 -/
 import Rngs.Lib.JitterEntropyLemmas
 import Rngs.Lib.JitterPairLemmas
@@ -105,6 +140,10 @@ theorem output_eq_iff (pool : U64) (pre post : List Meas) (d d' : U32) (s : Bool
     output pool (pre ++ ⟨d, s⟩ :: post) = output pool (pre ++ ⟨d', s⟩ :: post) ↔ d = d' := by
   unfold output
   rw [C15.stir_bijective.1.eq_iff, foldl_absorb_eq_iff]
+
+/-- … and, for fixed measurements, a bijection of the pool (C15, restated on `output`) -/
+theorem output_bijective_in_pool (used : List Meas) : Function.Bijective (fun pool => output pool used) :=
+  C15.stir_bijective.comp (foldl_absorb_bijective used)
 
 /-- **J1(b1).**  Two collections from the same state whose consumed measurements agree in every
     verdict and in every delta but one: the returned values are equal iff that delta is equal too. -/
@@ -351,11 +390,11 @@ theorem delta3_zero_iff (d₀ d₁ d₂ : U32) : (d₁ - d₂) - (d₀ - d₁) =
   sub_sub_eq_zero_iff d₀ d₁ d₂
 
 /-- … iff `2·d₁ − d₂ − d₀ = 0`: the three deltas are in arithmetic progression (mod 2^32) -/
-theorem delta3_zero_iff' (d₀ d₁ d₂ : U32) : (d₁ - d₂) - (d₀ - d₁) = 0 ↔ 2 * d₁ - d₂ - d₀ = 0 := by
+theorem delta3_zero_iff_twice (d₀ d₁ d₂ : U32) : (d₁ - d₂) - (d₀ - d₁) = 0 ↔ 2 * d₁ - d₂ - d₀ = 0 := by
   rw [sub_eq_zero_iff, sub_eq_zero_iff]
   constructor <;> intro h <;> bv_omega
 
-theorem delta3_zero_iff'' (d₀ d₁ d₂ : U32) : (d₁ - d₂) - (d₀ - d₁) = 0 ↔ d₂ + d₀ = 2 * d₁ := by
+theorem delta3_zero_iff_sum (d₀ d₁ d₂ : U32) : (d₁ - d₂) - (d₀ - d₁) = 0 ↔ d₂ + d₀ = 2 * d₁ := by
   rw [sub_eq_zero_iff]
   constructor <;> intro h <;> bv_omega
 
